@@ -202,6 +202,22 @@ def run_c10(ctx):
         kill_runs += 1
         events.append(dict(ev="killrun", scenario=-1, ops=ops, point=-1, calls_done=-1, last_call=None,
                            before=res["before"], after=res["after"]))
+    # ---- two recorders on one directory (motion + test recording, as handleConn wires them), started in the same
+    #      millisecond and a few milliseconds apart: every *.cptv must still be a complete recording
+    two_runs = 0
+    for ops in ["swwwSWWWpP", "sSwWwWwWpP", "szSwWwWwWpzP", "swwSWWpzswwPp"]:
+        for rep in range(3 if tier == "quick" else 20):
+            kd = ctx.path("two", "%s_%d" % (ops, rep), "x")[:-2]
+            os.makedirs(kd, exist_ok=True)
+            r = t("TestVerifScenario", dict(VERIF_DIR=kd, VERIF_OPS=ops))
+            if r.returncode != 0:
+                raise vlib.Infra("two-recorder scenario failed: " + (r.stdout + r.stderr)[-1500:])
+            insp = ctx.path("two", "%s_%d.json" % (ops, rep))
+            r = t("TestVerifInspect", dict(VERIF_DIR=kd, VERIF_OUT=insp))
+            res = json.load(open(insp))
+            two_runs += 1
+            events.append(dict(ev="killrun", scenario=-2, ops=ops, point=-1, calls_done=-1, last_call=None,
+                               before=res["before"], after=res["after"], tworec=True))
     # ---- concurrent observer
     obs_out = ctx.path("run", "observer.ndjson")
     r = t("TestVerifObserver", dict(VERIF_OUT=obs_out, VERIF_N=str(40 if tier == "quick" else 400)), timeout=600)
@@ -238,6 +254,8 @@ def run_c10(ctx):
         for tg in tags:
             e = events[line - 1]
             key = tg
+            if e.get("tworec") and tg == "C10:partial-file-named-cptv":
+                key = tg + "[two-recorders-same-millisecond]"
             if tg == "C10:debris-after-cleanup":
                 kinds = sorted({f["kind"] for f in e["after"] if f["kind"] != "final" or not f["decodes"]})
                 key = tg + "[" + ",".join(kinds) + "]"
@@ -254,7 +272,7 @@ def run_c10(ctx):
                     exhaustive=(tier == "thorough"), design=dict(MaxRec=3, CleanKinds=sorted(removed), violation=design_violation),
                     syscall_events_validated=sys_events_total, kill_runs=kill_runs,
                     distinct_kill_positions=len(set(kill_positions)), strace=have_strace,
-                    cptv_files_decoded_after_kills=finals, observer_files=len(obs),
+                    cptv_files_decoded_after_kills=finals, observer_files=len(obs), two_recorder_runs=two_runs,
                     evaluations=kill_runs + len(obs), distinct_nontrivial=len(set(kill_positions)) + len(obs),
                     rule="one real SIGKILL per chosen file-system call index of each scenario (+ random instants) followed by a "
                          "full decode of every *.cptv and the real clean-up; distinct = distinct kill positions + observed files",
